@@ -361,7 +361,7 @@ func genOverlay(p *packages.Package, con *Contracts, L *Loaded) (string, []strin
 	w("func __get[K comparable, V any](m map[K]V, k K) V { var z V; return z }\n")
 	w("func __same[T any](a, b T) bool { return true }\n")
 	w("func __fresh(x any) bool { return true }\n")
-	w("func __disjoint[T any](a, b []T) bool { return true }\n")
+	w("func __disjoint[T, U any](a []T, b []U) bool { return true }\n")
 	w("func __samearray[T any](a, b []T) bool { return true }\n")
 	w("func __unchanged() bool { return true }\n")
 	// aliases for types whose names are commonly shadowed by parameter names
